@@ -961,6 +961,11 @@ class Server:
             asyncio.create_task(self.parse_command(stream)),
         }
         self.connections[key] = connection
+        # command lines are read as they arrive, but handled one at a time,
+        # in order: the handler of a command starts when the handler of the
+        # previous one has returned (transfers go on in their worker tasks)
+        backlog = collections.deque()
+        command = None
         try:
             while True:
                 done, pending = await asyncio.wait(
@@ -969,6 +974,8 @@ class Server:
                 )
                 connection.extra_workers -= done
                 for task in done:
+                    if task is command:
+                        command = None
                     try:
                         result = task.result()
                     except errors.PathIOError:
@@ -984,19 +991,20 @@ class Server:
                         pending.add(
                             asyncio.create_task(self.parse_command(stream)),
                         )
-                        cmd, rest = result
-                        f = self.commands_mapping.get(cmd)
-                        # REST applies to the immediately following transfer only
-                        if cmd in ("retr", "stor", "appe"):
-                            connection.transfer_offset = connection.restart_offset
-                        connection.restart_offset = 0
-                        if f is not None:
-                            pending.add(
-                                asyncio.create_task(f(connection, rest)),
-                            )
-                        else:
-                            message = f"{cmd!r} not implemented"
-                            connection.response("502", message)
+                        backlog.append(result)
+                while command is None and backlog:
+                    cmd, rest = backlog.popleft()
+                    f = self.commands_mapping.get(cmd)
+                    # REST applies to the immediately following transfer only
+                    if cmd in ("retr", "stor", "appe"):
+                        connection.transfer_offset = connection.restart_offset
+                    connection.restart_offset = 0
+                    if f is not None:
+                        command = asyncio.create_task(f(connection, rest))
+                        pending.add(command)
+                    else:
+                        message = f"{cmd!r} not implemented"
+                        connection.response("502", message)
         except asyncio.CancelledError:
             raise
         except Exception:
